@@ -16,6 +16,7 @@ import RbV.Lemmas.SdpkppUnion
 import RbV.Lemmas.KmerHash
 import RbV.Lemmas.Expand
 import RbV.Thm.GenSrcLcskpp
+import RbV.Thm.GenSrcSdpkpp
 /-!
 # C19 — k-mer / q-gram indexing and sparse chaining are exact
 
@@ -827,6 +828,35 @@ example : validChain [(0, 0), (1, 1), (2, 2), (5, 5), (6, 9)] 3 [0, 1, 4] = true
       [0, 1, 4].drop (match findIdx 3 0 [0, 1, 4] with | some ind => ind + 1 | none => 3)) = [0, 1, 2, 3] := by decide
 
 end sdpkpp_model
+
+/-! ## `sdpkpp_union_lcskpp_path`, `PrevPtr::new` — the source text (`RbV/Gen/SrcSdpkpp.lean`, builder gensparse) -/
+section union_source
+open RbV.Rs RbV.Model.Lcskpp RbV.Model.Sdpkpp RbV.Lemmas.Lcskpp RbV.Lemmas.Sdpkpp RbV.Thm.GenSrcLcskpp RbV.Thm.GenSrcSdpkpp
+
+/-- **`sdpkpp_union_lcskpp_path` as written in the source** calls the translated `lcskpp` and `sdpkpp`; whatever they return
+(`lcskpp` path ascending, `sdpkpp` path non-empty) the result is the splice `lcskpp.path[..pre] ++ sdpkpp.path ++
+lcskpp.path[post..]` the mirror model computes, with `pre` / `post` decided by the two `binary_search` calls (contract
+`Rs.BSearchOk`; the insertion point of an `Err` is not used); no index of the copy loops is out of range -/
+theorem union_source_eq_splice (sortEv : List Ev → List Ev) (bsM : List M → M → Except Nat Nat) (bsN : List Nat → Nat → Except Nat Nat)
+    (hbsN : BSearchOk bsN) (ms : List M) (k msc : Nat) (go ge : Int) (hne : ms ≠ [])
+    {lp sp : List Nat} {ls ss : Nat} {ld sd : List (Nat × Int)} {first last : Nat}
+    (hl : Gen.SrcLcskpp.lcskpp sortEv bsM ms k = Res.ok (lp, ls, ld))
+    (hsd : Gen.SrcSdpkpp.sdpkpp sortEv bsM bsN ms k msc go ge = Res.ok (sp, ss, sd))
+    (hasc : lp.Pairwise (· < ·)) (hf : sp.head? = some first) (hla : sp.getLast? = some last) (hlen : lp.length < 2 ^ 63) :
+    Gen.SrcSdpkpp.unionPath sortEv bsM bsN ms k msc go ge
+      = Res.ok (lp.take ((findIdx first 0 lp).getD 0) ++ sp ++
+          lp.drop (match findIdx last 0 lp with | some ind => ind + 1 | none => lp.length)) :=
+  GenSrcSdpkpp.unionPath_eq_splice sortEv bsM bsN hbsN ms k msc go ge hne hl hsd hasc hf hla hlen
+
+/-- `PrevPtr::new` as written in the source = the model's record (as the tuple in field order) when the plane fits `u32` -/
+theorem prevptr_new_source_eq_model (sortEv : List Ev → List Ev) (bsM : List M → M → Except Nat Nat) (bsN : List Nat → Nat → Except Nat Nat)
+    (sc x y id ge : Nat) (h : sc + (x + y) * ge < 2 ^ 32) (hxy : x + y < 2 ^ 32) :
+    Gen.SrcSdpkpp.prevPtrNew sortEv bsM bsN sc x y id ge = Res.ok (toT (PrevPtr.new sc x y id ge)) :=
+  GenSrcSdpkpp.prevPtrNew_eq_model sortEv bsM bsN sc x y id ge h hxy
+
+example : Gen.SrcSdpkpp.prevPtrNew stdSortEv stdBsM (fun _ _ => .error 0) 7 3 4 2 5 = Res.ok (42, 7, 7, 2, 3, 4) := by decide
+
+end union_source
 
 section expand_then_chain
 open RbV.Model.Expand RbV.Model.Lcskpp
